@@ -121,6 +121,22 @@ Theorem pfaf_tributary_even : forall ds pits sq uparea mask depth,
 Proof. exact PfafStem.pfaf_tributary_even. Qed.
 Print Assumptions pfaf_tributary_even.
 
+(* A DEEPER LEVEL REFINES THE SHALLOWER ONE: integer division by 10 of the codes at depth + 1 gives the codes at depth, for
+   every ordered cell (simulation of the two runs: in lockstep with labels v |-> 10 v + 1 while the shallow run works, then
+   the deep run only adds 0..8 to the last digit of labels whose filled shallow code is already fixed) *)
+From PF Require Import PfafRefine.
+Theorem pfaf_refines : forall ds pits sq uparea mask depth,
+  topo ds sq -> (forall c, valid ds c -> In c sq) -> 1 <= depth -> NoDup pits ->
+  (forall p, In p pits -> In p sq /\ dsf ds p = p) ->
+  (forall c, In c sq -> 0 < nth c uparea 0) ->
+  (forall c, In c sq -> dsf ds c <> c -> nth c uparea 0 < nth (dsf ds c) uparea 0) ->
+  let main := main_upstream ds uparea 0 in
+  let L1 := fst (subbasins_pfafstetter ds pits sq main uparea mask depth) in
+  let L2 := fst (subbasins_pfafstetter ds pits sq main uparea mask (depth + 1)) in
+  forall i, In i sq -> nth i L2 0 / 10 = nth i L1 0.
+Proof. exact PfafRefine.pfaf_refines. Qed.
+Print Assumptions pfaf_refines.
+
 (* non-vacuity *)
 Example sto_example : topo [0;0;1;1]%nat [0;1;2;3]%nat /\
   subbasins_streamorder [0;0;1;1]%nat [0;1;2;3]%nat [2;2;1;1] 1 = ([3;3;2;1], [3;2;0]%nat).
